@@ -660,7 +660,7 @@ pub fn run(args: &Args) -> i32 {
     let gen_invalid_rules: Mutex<BTreeMap<String, u64>> = Mutex::new(BTreeMap::new());
     // ---------- valid direction
     let stats = explore(
-        &ExploreCfg { max_dev: if args.quick() { 2 } else { 3 }, threads: args.threads, budget: Duration::from_secs(if args.quick() { 40 } else { 1500 }) },
+        &ExploreCfg { max_dev: if args.quick() { 3 } else { 4 }, threads: args.threads, budget: Duration::from_secs(if args.quick() { 40 } else { 2400 }) },
         |c: &mut Chooser| {
             let case = gen_valid(c);
             let texts: Vec<String> = case.files.iter().map(ts_text).collect();
